@@ -363,7 +363,7 @@ func TestVerifC20(t *testing.T) {
 	if err := os.MkdirAll(dir, 0755); err != nil {
 		t.Fatal(err)
 	}
-	o := &orchestrator{c: c, dir: dir, errClasses: map[string]bool{}, stall: time.Duration(envInt("VERIF_C20_STALL_S", 120)) * time.Second,
+	o := &orchestrator{c: c, dir: dir, errClasses: map[string]bool{}, stall: time.Duration(envInt("VERIF_C20_STALL_S", 300)) * time.Second,
 		cpuLimit: envInt("VERIF_C20_RERUN_CPU_S", 60)}
 
 	modes := []string{"roundtrip", "hostile", "limits"}
@@ -414,8 +414,8 @@ func TestVerifC20(t *testing.T) {
 	c.Note("error_classes_sample", classes)
 
 	shard, _ := kit.Shard()
-	c.Floor("roundtrips_equal", int64(kit.Scale(2000, 15000)))
-	c.Floor("streams_equal", int64(kit.Scale(150, 1500)))
+	c.Floor("roundtrips_equal", int64(kit.Scale(2000, 10000)))
+	c.Floor("streams_equal", int64(kit.Scale(150, 1200)))
 	c.Floor("hostile_inputs", 30000)
 	c.Floor("decode_rejected", 15000)
 	c.Floor("decode_accepted", 100)
